@@ -775,9 +775,21 @@ def check_eig(inp) -> list:
     unit = V[:, np.isclose(w, 1.0, atol=1e-9)]
     out = []
     P = sp.csr_array(M)
+    import contextlib
+    import io
+
+    def quiet(fn_):
+        def run():
+            with contextlib.redirect_stdout(io.StringIO()):
+                return fn_()
+        return run
     solvers = {"eigsh_projector": lambda: et.eigsh_projector(P, verbose=False).toarray(),
                "eigsh_projector_sumrule_stable": lambda: et.eigsh_projector_sumrule_stable(P, verbose=False),
-               "eigsh_projector_sumrule_large": lambda: et.eigsh_projector_sumrule_large(P, verbose=False)}
+               "eigsh_projector_sumrule_large": lambda: et.eigsh_projector_sumrule_large(P, verbose=False),
+               # the verbose branches (log_level > 0) must return the same thing; their output is discarded
+               "eigsh_projector[verbose]": quiet(lambda: et.eigsh_projector(P, verbose=True).toarray()),
+               "eigsh_projector_sumrule_stable[verbose]": quiet(lambda: et.eigsh_projector_sumrule_stable(P, verbose=True)),
+               "eigsh_projector_sumrule_large[verbose]": quiet(lambda: et.eigsh_projector_sumrule_large(P, verbose=True))}
     with Hooks(**(inp.get("hooks") or {})):
         for name, fn in solvers.items():
             try:
